@@ -13,6 +13,7 @@ import (
 	"net/http"
 	"net/http/httptest"
 	"regexp"
+	"runtime"
 	"sort"
 	"strconv"
 	"strings"
@@ -59,6 +60,21 @@ type acaseT struct {
 	Pos    int     // position of the failing handler
 	Mask   int     // bit i set: handler i calls c.Next() (middleware style) instead of just returning
 	Call   callT
+	// PreCT: a Content-Type (and an unrelated header) already set when Fail is called — by the global
+	// middleware before Next (PreAt 0: "default content type" middleware) or by the failing handler
+	// itself right before it fails (PreAt 1: a handler that had prepared a download)
+	PreCT *string `json:",omitempty"`
+	PreAt int     `json:",omitempty"`
+}
+
+// ocaseT: overlapping failing requests on one app. Request 0 is served on its own goroutine with a
+// ResponseWriter that parks inside WriteHeader ("h") or inside its first Write ("w") until the other
+// requests (different errors) have been served completely; then it is released. Every response is
+// judged on its own by the ordinary oracle.
+type ocaseT struct {
+	Opts []optT
+	Reqs []acaseT
+	Park string
 }
 
 type mcaseT struct {
@@ -80,9 +96,11 @@ type fcaseT struct {
 }
 
 type caseT struct {
-	A *acaseT `json:",omitempty"`
-	M *mcaseT `json:",omitempty"`
-	F *fcaseT `json:",omitempty"`
+	O   *ocaseT `json:",omitempty"`
+	Idx int     `json:",omitempty"`
+	A   *acaseT `json:",omitempty"`
+	M   *mcaseT `json:",omitempty"`
+	F   *fcaseT `json:",omitempty"`
 }
 
 // ---------------------------------------------------------------- JSON helpers
@@ -200,14 +218,23 @@ func (f fmtT) build() riverrors.Formatter {
 	}
 }
 
-// the state the pre-registered handlers read
-var cur struct {
-	c        *acaseT
-	err      error
-	entered  []int
-	aborted  bool
-	answers  []string
-	panicked any
+// the state the pre-registered handlers read, one slot per request in flight (header X-Slot)
+type slotT struct {
+	c       *acaseT
+	err     error
+	entered []int
+	aborted bool
+}
+
+var slots [4]slotT
+var acceptAnswers []string
+
+func slotOf(r *http.Request) *slotT {
+	i, _ := strconv.Atoi(r.Header.Get("X-Slot"))
+	if i < 0 || i >= len(slots) {
+		i = 0
+	}
+	return &slots[i]
 }
 
 var helperCalls = []func(c *app.Context, err error){
@@ -225,22 +252,27 @@ var helperCalls = []func(c *app.Context, err error){
 
 func handlerAt(i int) app.HandlerFunc {
 	return func(c *app.Context) {
-		k := cur.c
+		sl := slotOf(c.Request)
+		k := sl.c
 		if k == nil {
 			c.Next()
 			return
 		}
-		cur.entered = append(cur.entered, i)
+		sl.entered = append(sl.entered, i)
+		if k.PreCT != nil && ((k.PreAt == 0 && i == 0) || (k.PreAt == 1 && i == k.Pos)) {
+			c.Header("Content-Type", *k.PreCT)
+			c.Header("X-Prepared", "1")
+		}
 		if i == k.Pos {
 			switch k.Call.Kind {
 			case "fail":
-				c.Fail(cur.err)
+				c.Fail(sl.err)
 			case "status":
-				c.FailStatus(k.Call.Status, cur.err)
+				c.FailStatus(k.Call.Status, sl.err)
 			default:
-				helperCalls[k.Call.Helper](c, cur.err)
+				helperCalls[k.Call.Helper](c, sl.err)
 			}
-			cur.aborted = c.IsAborted()
+			sl.aborted = c.IsAborted()
 			return
 		}
 		if k.Mask&(1<<i) != 0 {
@@ -326,15 +358,15 @@ func getApp(opts []optT) *builtApp {
 	offers := lastOffers(opts)
 	a.GET("/accepts", func(c *app.Context) {
 		seen := map[string]bool{}
-		cur.answers = nil
+		acceptAnswers = nil
 		for _, p := range permutations(offers) {
 			ans := c.Accepts(p...)
 			if !seen[ans] {
 				seen[ans] = true
-				cur.answers = append(cur.answers, ans)
+				acceptAnswers = append(acceptAnswers, ans)
 			}
 		}
-		sort.Strings(cur.answers)
+		sort.Strings(acceptAnswers)
 		_ = c.String(200, "ok")
 	})
 	b := &builtApp{a: a}
@@ -366,9 +398,10 @@ func (k acaseT) route() string {
 	return fmt.Sprintf("/f/%d/%d", k.Len, nb)
 }
 
-func serve(b *builtApp, wire, path string, accept *string) (status int, ctype string, body []byte, panicked bool) {
+func serve(b *builtApp, wire, path string, accept *string, slot int) (status int, ctype string, body []byte, panicked bool) {
 	if wire == "s" {
 		req, _ := http.NewRequest(http.MethodGet, b.server().URL+path, nil)
+		req.Header.Set("X-Slot", strconv.Itoa(slot))
 		if accept != nil {
 			req.Header.Set("Accept", *accept)
 		}
@@ -384,6 +417,7 @@ func serve(b *builtApp, wire, path string, accept *string) (status int, ctype st
 	}
 	rec := httptest.NewRecorder()
 	req := httptest.NewRequest(http.MethodGet, path, nil)
+	req.Header.Set("X-Slot", strconv.Itoa(slot))
 	if accept != nil {
 		req.Header.Set("Accept", *accept)
 	}
@@ -398,25 +432,29 @@ func serve(b *builtApp, wire, path string, accept *string) (status int, ctype st
 	return rec.Code, rec.Header().Get("Content-Type"), rec.Body.Bytes(), panicked
 }
 
-func runA(k acaseT) (obsT, []string) {
-	b := getApp(k.Opts)
+func answersFor(b *builtApp, accept *string) []string {
 	// what c.Accepts answers for every order of the configured media types
-	cur.c = nil
-	cur.answers = nil
-	serve(b, "r", "/accepts", k.Accept)
-	answers := cur.answers
+	slots[0].c = nil
+	acceptAnswers = nil
+	serve(b, "r", "/accepts", accept, 0)
+	answers := acceptAnswers
 	if len(answers) == 0 {
 		answers = []string{""}
 	}
-	cur.c = &k
-	cur.entered, cur.aborted = nil, false
-	cur.err = nil
+	return answers
+}
+
+func arm(slot int, k *acaseT) {
+	slots[slot] = slotT{c: k}
 	if k.Call.Err != nil {
-		cur.err = k.Call.Err.build()
+		slots[slot].err = k.Call.Err.build()
 	}
-	st, ct, body, panicked := serve(b, k.Wire, k.route(), k.Accept)
-	cur.c = nil
-	o := obsT{status: st, ctype: ct, aborted: cur.aborted, entered: append([]int(nil), cur.entered...), panic: panicked}
+}
+
+func observe(slot, st int, ct string, body []byte, panicked bool) obsT {
+	sl := &slots[slot]
+	o := obsT{status: st, ctype: ct, aborted: sl.aborted, entered: append([]int(nil), sl.entered...), panic: panicked}
+	sl.c = nil
 	dec := json.NewDecoder(bytes.NewReader(body))
 	dec.UseNumber()
 	for {
@@ -431,7 +469,105 @@ func runA(k acaseT) (obsT, []string) {
 		}
 		o.bodies = append(o.bodies, blankIDs(v))
 	}
-	return o, answers
+	return o
+}
+
+func runA(k acaseT) (obsT, []string) {
+	b := getApp(k.Opts)
+	answers := answersFor(b, k.Accept)
+	arm(0, &k)
+	st, ct, body, panicked := serve(b, k.Wire, k.route(), k.Accept, 0)
+	return observe(0, st, ct, body, panicked), answers
+}
+
+// parkWriter is request 0's ResponseWriter in an overlap case.
+type parkWriter struct {
+	h       http.Header
+	code    int
+	body    bytes.Buffer
+	park    string
+	parked  chan struct{}
+	release chan struct{}
+	done    bool
+}
+
+func (w *parkWriter) Header() http.Header { return w.h }
+
+func (w *parkWriter) stall() {
+	if !w.done {
+		w.done = true
+		close(w.parked)
+		<-w.release
+	}
+}
+
+func (w *parkWriter) WriteHeader(code int) {
+	if w.code == 0 {
+		w.code = code
+	}
+	if w.park == "h" {
+		w.stall()
+	}
+}
+
+func (w *parkWriter) Write(p []byte) (int, error) {
+	if w.code == 0 {
+		w.code = http.StatusOK
+	}
+	if w.park == "w" {
+		w.stall()
+	}
+	return w.body.Write(p)
+}
+
+func runO(k ocaseT) ([]obsT, [][]string) {
+	b := getApp(k.Opts)
+	n := len(k.Reqs)
+	answers := make([][]string, n)
+	for i := range k.Reqs {
+		answers[i] = answersFor(b, k.Reqs[i].Accept)
+	}
+	for i := range k.Reqs {
+		arm(i, &k.Reqs[i])
+	}
+	// one P: the goroutines of the overlapping requests share its sync.Pool slots, as requests on a
+	// busy server do
+	defer runtime.GOMAXPROCS(runtime.GOMAXPROCS(1))
+	pw := &parkWriter{h: http.Header{}, park: k.Park, parked: make(chan struct{}), release: make(chan struct{})}
+	finished := make(chan bool, 1)
+	go func() {
+		panicked := false
+		defer func() {
+			if r := recover(); r != nil {
+				panicked = true
+			}
+			finished <- panicked
+		}()
+		req := httptest.NewRequest(http.MethodGet, k.Reqs[0].route(), nil)
+		req.Header.Set("X-Slot", "0")
+		if k.Reqs[0].Accept != nil {
+			req.Header.Set("Accept", *k.Reqs[0].Accept)
+		}
+		b.a.Router().ServeHTTP(pw, req)
+	}()
+	obs := make([]obsT, n)
+	early := false
+	var pan0 bool
+	select {
+	case <-pw.parked:
+	case pan0 = <-finished: // never reached the parking point
+		early = true
+	}
+	for i := 1; i < n; i++ {
+		st, ct, body, panicked := serve(b, "r", k.Reqs[i].route(), k.Reqs[i].Accept, i)
+		obs[i] = observe(i, st, ct, body, panicked)
+	}
+	if !early {
+		close(pw.release)
+		pan0 = <-finished
+	}
+	obs[0] = observe(0, pw.code, pw.h.Get("Content-Type"), pw.body.Bytes(), pan0)
+	return obs, answers
 }
 
 // ---------------------------------------------------------------- case line
@@ -555,6 +691,29 @@ var helperStatus = []int{404, 400, 401, 403, 409, 410, 422, 429, 500, 503}
 
 func emitA(id string, k acaseT, st *hx.Stats) string {
 	o, answers := runA(k)
+	return lineA(id, k, o, answers, st) + hx.Comment(caseT{A: &k})
+}
+
+func emitO(id string, k ocaseT, only int, st *hx.Stats) []string {
+	obs, answers := runO(k)
+	var out []string
+	for i := range k.Reqs {
+		if only >= 0 && i != only {
+			continue
+		}
+		lid := id
+		if only < 0 {
+			lid = fmt.Sprintf("%s.%d", id, i)
+		}
+		out = append(out, lineA(lid, k.Reqs[i], obs[i], answers[i], st)+hx.Comment(caseT{O: &k, Idx: i}))
+	}
+	if st != nil {
+		st.Count("fail_overlapping_histories")
+	}
+	return out
+}
+
+func lineA(id string, k acaseT, o obsT, answers []string, st *hx.Stats) string {
 	l := hx.NewLine(id).Tok("A").Tok(k.Wire).Str(k.route())
 	// the error tree goes to a side line first so that the statuses it mentions are known
 	el := hx.NewLine("")
@@ -628,6 +787,11 @@ func emitA(id string, k acaseT, st *hx.Stats) string {
 		l.Bool(false)
 	}
 	l.Strs(answers)
+	if k.PreCT != nil {
+		l.Bool(true).Str(*k.PreCT)
+	} else {
+		l.Bool(false)
+	}
 	l.Nat(k.Pos)
 	l.Tok(strings.TrimSpace(el.String()))
 	in := l.String()
@@ -665,8 +829,11 @@ func emitA(id string, k acaseT, st *hx.Stats) string {
 		if len(answers) > 1 {
 			st.Count("fail_accepts_order_dependent")
 		}
+		if k.PreCT != nil {
+			st.Count("fail_content_type_preset_" + strconv.Itoa(k.PreAt))
+		}
 	}
-	return l.String() + hx.Comment(caseT{A: &k})
+	return l.String()
 }
 
 func emitM(id string, k mcaseT, st *hx.Stats) string {
@@ -782,7 +949,11 @@ func main() {
 		r := hx.NewRand(a.Seed)
 		st := hx.NewStats()
 		for i, c := range fixedCases() {
-			if c.A != nil {
+			if c.O != nil {
+				for _, line := range emitO(fmt.Sprintf("c06-fix-%d", i), *c.O, -1, st) {
+					fmt.Fprintln(w, line)
+				}
+			} else if c.A != nil {
 				fmt.Fprintln(w, emitA(fmt.Sprintf("c06-fix-%d", i), *c.A, st))
 			} else {
 				fmt.Fprintln(w, emitM(fmt.Sprintf("c06-fix-%d", i), *c.M, st))
@@ -792,6 +963,10 @@ func main() {
 		for i := 0; i < a.N; i++ {
 			if r.Chance(1, 8) {
 				fmt.Fprintln(w, emitM(fmt.Sprintf("c06-m-%d-%d", a.Seed, i), g.mcase(), st))
+			} else if r.Chance(1, 10) {
+				for _, line := range emitO(fmt.Sprintf("c06-o-%d-%d", a.Seed, i), g.ocase(), -1, st) {
+					fmt.Fprintln(w, line)
+				}
 			} else if r.Chance(1, 8) {
 				fmt.Fprintln(w, emitF(fmt.Sprintf("c06-f-%d-%d", a.Seed, i), fcaseT{F: g.fmt(), Err: g.err(0)}, st))
 			} else {
@@ -808,6 +983,10 @@ func main() {
 				continue
 			}
 			switch {
+			case k.O != nil:
+				for _, line := range emitO(id, *k.O, k.Idx, nil) {
+					fmt.Fprintln(w, line)
+				}
 			case k.A != nil:
 				fmt.Fprintln(w, emitA(id, *k.A, nil))
 			case k.M != nil:
